@@ -139,32 +139,38 @@ pub unsafe extern "C" fn read(fd: libc::c_int, buf: *mut libc::c_void, count: li
 #[no_mangle]
 pub unsafe extern "C" fn munmap(addr: *mut libc::c_void, len: libc::size_t) -> libc::c_int {
     let a = addr as usize;
+    let end = a + len;
     lock();
     let maps = &mut *std::ptr::addr_of_mut!(MAPS);
-    let mut forward = true;
-    let mut exact = None;
-    for i in 0..NMAPS {
-        let m = &maps[i];
-        if m.live {
-            let overlap = a < m.addr + m.len.max(1) && m.addr < a + len.max(1);
-            if m.addr == a && m.len == len {
-                exact = Some(i);
-            } else if overlap {
-                if NMVIOL < 16 {
-                    (*std::ptr::addr_of_mut!(MVIOLS))[NMVIOL] = Some((MViol::PartialUnmap, m.len));
-                }
-                NMVIOL += 1;
-                forward = false;
+    let n0 = NMAPS;
+    for i in 0..n0 {
+        let m = maps[i];
+        if !m.live {
+            continue;
+        }
+        let (ms, me) = (m.addr, m.addr + m.len);
+        if a >= me || ms >= end {
+            continue; // disjoint
+        }
+        if a <= ms && end >= me {
+            maps[i].live = false; // released entirely
+        } else if a <= ms {
+            // head trimmed
+            maps[i].addr = end;
+            maps[i].len = me - end;
+        } else if end >= me {
+            // tail trimmed
+            maps[i].len = a - ms;
+        } else {
+            // a hole in the middle: two mappings remain
+            maps[i].len = a - ms;
+            if NMAPS < MCAP {
+                maps[NMAPS] = Mapping { addr: end, len: me - end, ..m };
+                NMAPS += 1;
             }
         }
     }
-    if let Some(i) = exact {
-        maps[i].live = false;
-    }
     unlock();
-    if !forward {
-        return 0;
-    }
     libc::syscall(libc::SYS_munmap, addr, len) as libc::c_int
 }
 
